@@ -1145,6 +1145,13 @@ def builtin(I, o, args, kwargs, callnode):
     import typing as _typing
     if o is _typing.cast:
         return args[1]
+    if isinstance(o, type) and isinstance(getattr(o, '_fields', None), tuple) and \
+            o.__module__.startswith('chameleon'):
+        # astutil.Node subclasses: plain records built from positional/keyword fields
+        used('node constructors (free records, no side effects)')
+        flds = dict(zip(o._fields, args))
+        flds.update(kwargs)
+        return VRec('node::' + o.__name__, flds)
     if isinstance(o, type) and o.__name__ == 'OrderedDict' and not args:
         return VDict()
     r = I.vc.call_real(I, o, args, kwargs, callnode)
